@@ -58,6 +58,8 @@ def gen_broker_case(rng, stream='valid', n_ops=None, exact=False, fee=None, npf=
     amt = (lambda lo, hi: dy(rng, lo, hi, 4)) if exact else (
         lambda lo, hi: rng.choice([round(rng.uniform(lo, hi), 2), round(rng.uniform(lo, hi), 3), rng.uniform(lo, hi)]))
     funds = amt(0, 200000) if rng.random() < 0.8 else 0.0
+    if rng.random() < 0.03:
+        funds = -amt(0.25, 1000)          # a broker cannot be created with negative funds
     start = MON + rng.choice([0, OPEN, 3 * 3600]) + DAY * rng.randint(0, 6)
     t = start
     price = {a: dy(rng, 5, 300, 8) for a in assets}
@@ -441,6 +443,10 @@ def compare_broker(case, impl, mod, fields, j):
                 # rounding knife edges were already classified step by step; only structural
                 # differences matter here
                 out.extend(t for t in tmp if 'dt/type' in t or 'description' in t)
+        for name, res in impl.get('unknown_pid_probes', []):
+            want = ['err', 'ValueError'] if name == 'get_portfolio_cash_balance' else ['err', 'KeyError']
+            if res != want:
+                out.append('%s for an unknown portfolio id: %s (the code base raises %s there)' % (name, res, want[1]))
         for (pid, n) in impl.get('dfrows', []):
             hl = dict((p, len(h)) for p, h in impl['hist'])
             if n != hl.get(pid):
